@@ -614,7 +614,10 @@ impl Instance {
         }
 
         let bound = f.evaluate_bound(&bounds);
-        if bound.lower() > 0.0 {
+        // The bound evaluation may be inaccurate due to floating-point arithmetic error,
+        // use the same tolerance as `Bound::as_integer_bound` and the feasibility check of `evaluate`.
+        let atol = 1e-6;
+        if bound.lower() > atol {
             bail!(InfeasibleDetected::InequalityConstraintBound {
                 id: ConstraintID::from(constraint_id),
                 bound,
@@ -629,7 +632,7 @@ impl Instance {
             )?;
             return Ok(None);
         }
-        let b = -bound.lower() / slack_upper_bound as f64;
+        let b = (-bound.lower()).max(0.0) / slack_upper_bound as f64;
 
         self.decision_variables.push(DecisionVariable {
             id: slack_id,
